@@ -7,8 +7,12 @@ if ! git diff --quiet; then echo "/repo has uncommitted changes"; exit 2; fi
 if ! git apply --3way "$patch" 2>/tmp/seedapply.err && ! git apply "$patch" 2>>/tmp/seedapply.err; then echo "patch does not apply"; cat /tmp/seedapply.err; git reset -q --hard HEAD; exit 3; fi
 git reset -q
 trap 'git -C /repo reset -q --hard HEAD; git -C /repo clean -fdq 2>/dev/null' EXIT INT TERM
+# evidence files written while a seeded change is applied must not replace the clean-tree evidence
+evbak=$(mktemp -d)
+cp /verif/evidence/*.json $evbak/ 2>/dev/null
 for p in "$@"; do
   (cd /verif && VERIF_SEED=${VERIF_SEED:-1} ./check $p --tier ${TIER:-quick} 2>&1 | tail -4; echo "exit($p)=${PIPESTATUS[0]}")
 done
+cp $evbak/*.json /verif/evidence/ 2>/dev/null; rm -rf $evbak
 git reset -q --hard HEAD; git clean -fdq 2>/dev/null
 git status --short | head
